@@ -2,4 +2,4 @@ From DW Require Import Run Observe.
 From Coq Require Extraction.
 From Coq Require Import ExtrOcamlBasic.
 Extraction Language OCaml.
-Extraction "../ocaml/model.ml" run_expand digest_result trait_name error_name run_stage_a run_strip observe.
+Extraction "../ocaml/model.ml" run_expand digest_result trait_name error_name run_stage_a run_strip observe run_cells.
